@@ -389,6 +389,25 @@ impl Iso {
             Iso::Harness(_) => None,
         }
     }
+    /// does the run exhibit a violation of this class (as its first or as a further violation)?
+    pub fn has_class(&self, class: &str) -> bool {
+        match self {
+            Iso::Outcome(o) => o.violation.as_ref().map(|v| v.class == class).unwrap_or(false) || o.more.iter().any(|(v, _)| v.class == class),
+            Iso::Died { class: c, .. } => c == class,
+            Iso::Harness(_) => false,
+        }
+    }
+    pub fn detail_of(&self, class: &str) -> String {
+        match self {
+            Iso::Outcome(o) => {
+                if let Some(v) = o.violation.as_ref().filter(|v| v.class == class) {
+                    return v.detail.clone();
+                }
+                o.more.iter().find(|(v, _)| v.class == class).map(|(v, _)| v.detail.clone()).unwrap_or_default()
+            }
+            other => other.detail(),
+        }
+    }
     pub fn detail(&self) -> String {
         match self {
             Iso::Outcome(o) => o.violation.as_ref().map(|v| v.detail.clone()).unwrap_or_default(),
@@ -799,7 +818,7 @@ fn minimise(p: &dyn Property, case: Value, class: &str, tier: Tier, budget: usiz
             }
             attempts += 1;
             let r = exec_isolated(p, &c, tier);
-            if r.class().as_deref() == Some(class) {
+            if r.has_class(class) {
                 cur = match r {
                     Iso::Outcome(Outcome { refined: Some(rc), .. }) => rc,
                     _ => c,
@@ -906,7 +925,7 @@ pub fn check_main(p: &dyn Property, a: CheckArgs) -> i32 {
             v.case.clone()
         };
         let first = exec_isolated(p, &case, a.tier);
-        if class == "hang" && first.class().is_none() {
+        if class == "hang" && first.class().is_none() && !first.has_class(class) {
             // CPU time is the one oracle that is not a pure function of the seed (it grows under
             // memory-bandwidth contention between workers). A hang verdict that the same case does
             // not earn when run alone is load, not a violation and not a harness defect.
@@ -916,7 +935,7 @@ pub fn check_main(p: &dyn Property, a: CheckArgs) -> i32 {
             );
             continue;
         }
-        if first.class().as_deref() != Some(class.as_str()) {
+        if !first.has_class(class) {
             eprintln!(
                 "HARNESS-ERROR property={} violation class {:?} (case_seed={}) did not reproduce in a fresh process (got {:?}: {}) — not reported as a violation",
                 p.id(), class, v.case_seed, first.class(), first.detail()
@@ -931,7 +950,7 @@ pub fn check_main(p: &dyn Property, a: CheckArgs) -> i32 {
             (case.clone(), 0)
         };
         let fin = exec_isolated(p, &mcase, a.tier);
-        let (mcase, fin) = if fin.class().as_deref() == Some(class.as_str()) { (mcase, fin) } else { (case, first) };
+        let (mcase, fin) = if fin.has_class(class) { (mcase, fin) } else { (case, first) };
         let path = replay_dir.join(format!("{}-{}-{:08x}.json", p.id(), v.case_seed, fnv1a(class.as_bytes()) as u32));
         let doc = json!({
             "property": p.id(),
@@ -940,7 +959,7 @@ pub fn check_main(p: &dyn Property, a: CheckArgs) -> i32 {
             "case_index": v.index,
             "tier": a.tier.name(),
             "class": class,
-            "detail": fin.detail(),
+            "detail": fin.detail_of(class),
             "first_seen_detail": v.detail,
             "instances_this_run": vs.len(),
             "minimise_attempts": attempts,
@@ -956,7 +975,7 @@ pub fn check_main(p: &dyn Property, a: CheckArgs) -> i32 {
             Ok(Some(c)) if &c == class => {
                 violations += 1;
                 println!("VIOLATION property={} replay={}", p.id(), path.display());
-                println!("  class={} detail={}", class, fin.detail());
+                println!("  class={} detail={}", class, fin.detail_of(class));
             }
             other => {
                 eprintln!("HARNESS-ERROR property={} replay file {} did not reproduce ({:?})", p.id(), path.display(), other);
@@ -992,9 +1011,10 @@ pub fn replay_file(p: &dyn Property, path: &std::path::Path) -> Result<Option<St
     let s = std::fs::read_to_string(path).map_err(|e| e.to_string())?;
     let j: Value = serde_json::from_str(&s).map_err(|e| e.to_string())?;
     let tier = Tier::parse(j["tier"].as_str().unwrap_or("quick")).unwrap_or(Tier::Quick);
+    let want = j["class"].as_str().unwrap_or("").to_string();
     match exec_isolated(p, &j["case"], tier) {
         Iso::Harness(e) => Err(e),
-        other => Ok(other.class()),
+        other => Ok(if other.has_class(&want) { Some(want) } else { other.class() }),
     }
 }
 
@@ -1015,10 +1035,10 @@ pub fn replay_main(p: &dyn Property, path: &std::path::Path) -> i32 {
             eprintln!("HARNESS-ERROR {}", e);
             2
         }
-        _ => match r.class() {
+        _ => match if r.has_class(&want) { Some(want.clone()) } else { r.class() } {
             Some(c) => {
                 println!("VIOLATION property={} replay={}", p.id(), path.display());
-                println!("  class={} detail={}", c, r.detail());
+                println!("  class={} detail={}", c, r.detail_of(&c));
                 if c != want {
                     println!("  note: recorded class was {}", want);
                 }
